@@ -400,7 +400,11 @@ TASK_STATE_MACHINE_DATA = {
         events.ACTION_CANCELED: statuses.CANCELED,
     },
     statuses.RETRYING: {
+        events.ACTION_REQUESTED: statuses.REQUESTED,
+        events.ACTION_SCHEDULED: statuses.SCHEDULED,
+        events.ACTION_DELAYED: statuses.DELAYED,
         events.ACTION_RUNNING: statuses.RUNNING,
+        events.ACTION_PENDING: statuses.PENDING,
         events.ACTION_CANCELING: statuses.CANCELING,
         events.ACTION_CANCELED: statuses.CANCELED,
         events.WORKFLOW_CANCELING: statuses.CANCELED,
